@@ -175,7 +175,8 @@ def run_case(case):
             continue
         if not single and uid not in hosted:
             if not ignore:
-                predicted[k].append(refframe.build(framing, uid, bytes([pdu[0] | 0x80, 0x0B]), r['tid'], 0))
+                # C10 allows silence or a gateway exception (0x0A / 0x0B) here; the front-ends only have to agree
+                predicted[k].append(('gateway', uid, r['tid'], pdu[0]))
             continue
         if pdu[0] in (43, 17):
             predicted[k].append(None)        # differential only
@@ -194,7 +195,7 @@ def run_case(case):
             rp = bytes([pdu[0] | 0x80, primary])
         predicted[k].append(refframe.build(framing, uid, rp, r['tid'], 0))
     if framing == 'binary':
-        allf = [f for fs in frames for f in fs] + [p for ps in predicted.values() for p in ps if p]
+        allf = [f for fs in frames for f in fs] + [p for ps in predicted.values() for p in ps if isinstance(p, bytes)]
         if any(any(b in (0x7B, 0x7D) for b in f[1:-1]) for f in allf):
             return Outcome([], labels + ['excluded-binary-delimiter'], False)
     interleaved = len(case['conns']) >= 2 and any(script[i][0] != script[i + 1][0] for i in range(len(script) - 1))
@@ -234,15 +235,29 @@ def run_case(case):
         for fe in fes:
             sent, dump, res = results[fe]
             for k in range(len(case['conns'])):
-                got = sent[k]
-                want = predicted[k]
-                if len(got) != len(want):
-                    discs.append(Disc('model-response-count', '%s/%s connection %d: %d responses, model predicts %d' % (fe, framing, k, len(got), len(want))))
+                try:
+                    got = [p_ for s_ in sent[k] for p_ in refframe.parse_many(framing, s_)]     # a write may carry several frames
+                except refframe.FrameError as e:
+                    discs.append(Disc('not-a-frame', '%s/%s connection %d: %s' % (fe, framing, k, e)))
                     break
-                for g, w in zip(got, want):
-                    if w is not None and g != w:
-                        discs.append(Disc('model-response', '%s/%s connection %d: sent %s, model predicts %s' % (fe, framing, k, g.hex()[:80], w.hex()[:80])))
+                want = predicted[k]
+                j = 0
+                for w in want:
+                    g = got[j] if j < len(got) else None
+                    if isinstance(w, tuple):          # absent unit: silence or one gateway exception with the request ids
+                        if g is not None and g['uid'] == w[1] and (framing != 'tcp' or g['tid'] == w[2]) and len(g['pdu']) == 2 and \
+                                g['pdu'][0] == (w[3] | 0x80) and g['pdu'][1] in (0x0A, 0x0B):
+                            j += 1
+                        continue
+                    if g is None:
+                        discs.append(Disc('model-response-count', '%s/%s connection %d: %d response frames, the model predicts more' % (fe, framing, k, len(got))))
                         break
+                    if w is not None and refframe.build(framing, g['uid'] or 0, g['pdu'], g['tid'] or 0, g['pid'] or 0) != w:
+                        discs.append(Disc('model-response', '%s/%s connection %d: sent %s, model predicts %s' % (fe, framing, k, g['pdu'].hex()[:80], w.hex()[:80])))
+                        break
+                    j += 1
+                if not discs and j < len(got):
+                    discs.append(Disc('model-response-count', '%s/%s connection %d: %d response frames, the model predicts %d' % (fe, framing, k, len(got), j)))
                 if discs:
                     break
             if not discs and dump != want_dump:
